@@ -185,11 +185,18 @@ def _parse_body(blt_lines: Iterable[str],
             if oneplus_weights and weight < 1:
                 raise BLTParseError(f'ballot weight <1: {line!r}')
             if ballot not in ballots:
-                ballots[ballot] = 0
-            try:
-                ballots[ballot] += weight
-            except TypeError:    # Decimal and Fraction do not mix
-                ballots[ballot] = Fraction(ballots[ballot]) + Fraction(weight)
+                # Keep the weight as written: 0 + Decimal would round it
+                # to the precision of the current decimal context.
+                ballots[ballot] = weight
+            else:
+                try:
+                    ballots[ballot] += weight
+                except TypeError:    # Decimal and Fraction do not mix
+                    ballots[ballot] = (Fraction(ballots[ballot])
+                                       + Fraction(weight))
+                except ArithmeticError as err:
+                    raise BLTParseError(f'ballot weight out of range:'
+                                        f' {line!r}') from err
             ballots_encountered = True
     raise BLTParseError('incomplete BLT file:'
                         ' EOF before ballot list terminator')
